@@ -798,6 +798,10 @@ func TestVerifC14ExitPaths(t *testing.T) {
 // Part D: the local executor's limiter.
 
 type c14LocalCase struct {
+	// FailFirst: before the measured programs, runs that fail (a reduce combiner panicking in the task
+	// that produces and in the task that gathers the shuffle) are executed in the same session; the
+	// procs their tasks held must have been returned.
+	FailFirst   bool   `json:"fail_first,omitempty"`
 	Parallelism int    `json:"parallelism"`
 	Programs    []struct {
 		Shards    int  `json:"shards"`
@@ -815,6 +819,39 @@ func c14RunLocal(c c14LocalCase) (err error, g progen.Gauge) {
 	progen.TheGauge.Reset()
 	sess := Start(Local, Parallelism(c.Parallelism))
 	defer sess.Shutdown()
+	if c.FailFirst {
+		for _, cross := range []bool{false, true} {
+			src := progen.Node{Op: "readerfunc", Cols: []progen.Col{progen.TInt, progen.TInt}, NShard: 3, ShardRows: make([][][]int, 3)}
+			for s := 0; s < 3; s++ {
+				for r := 0; r < 6; r++ {
+					k := r % 2 // keys repeated inside the shard: the producing task combines
+					if cross {
+						k = r // every key once per shard: only the gathering task combines
+					}
+					src.ShardRows[s] = append(src.ShardRows[s], []int{k, r})
+				}
+			}
+			spec := &progen.Spec{Nodes: []progen.Node{src, {Op: "reduce", In: []int{0}, Fn: &progen.Fn{Fail: &progen.Fail{Mode: "panic", At: 0, Persistent: true}}}}}
+			if e := progen.Annotate(spec); e != nil {
+				return e, g
+			}
+			spec.RunID = int(atomic.AddInt64(&c14RunIDs, 1))
+			failed := make(chan error, 1)
+			go func() {
+				_, e := sess.Run(context.Background(), progen.Prog0, *spec)
+				failed <- e
+			}()
+			select {
+			case e := <-failed:
+				if e == nil {
+					return fmt.Errorf("harness: the failing run succeeded"), g
+				}
+			case <-time.After(60 * time.Second):
+				return fmt.Errorf("a run whose reduce combiner panics did not return within 60s"), g
+			}
+			progen.DropEnv(spec.RunID)
+		}
+	}
 	var wg sync.WaitGroup
 	errs := make([]error, len(c.Programs))
 	for i, p := range c.Programs {
@@ -842,6 +879,9 @@ func c14RunLocal(c c14LocalCase) (err error, g progen.Gauge) {
 	select {
 	case <-done:
 	case <-time.After(60 * time.Second):
+		if c.FailFirst {
+			return fmt.Errorf("after failed runs in the same session, local runs (parallelism %d, %d programs) did not finish within 60s: the failed tasks did not return their procs", c.Parallelism, len(c.Programs)), progen.TheGauge.Snapshot()
+		}
 		return fmt.Errorf("concurrent local runs did not finish within 60s"), progen.TheGauge.Snapshot()
 	}
 	for _, e := range errs {
@@ -866,7 +906,7 @@ const c14Local = "TestVerifC14LocalLimiter"
 
 func TestVerifC14LocalLimiter(t *testing.T) {
 	rec := vt.New("C14", "local-limiter",
-		"rapid: 1..4 programs (ReaderFunc sources of 1..8 shards, some with the Exclusive pragma, each read taking ~0.3 ms) run concurrently in one local session with parallelism 1..6; the generated reader functions maintain a gauge of concurrently active tasks; oracle: the gauge never exceeds the configured parallelism, no task starts while an exclusive task is active and an exclusive task starts only when nothing else runs; non-trivial = more tasks than the parallelism or an exclusive program present; distinct by case hash")
+		"rapid: 1..4 programs (ReaderFunc sources of 1..8 shards, some with the Exclusive pragma, each read taking ~0.3 ms) run concurrently in one local session with parallelism 1..6, in a quarter of the cases after two runs in the same session that fail (reduce combiner panicking in the producing task and in the task gathering the shuffle), whose procs must have been returned; the generated reader functions maintain a gauge of concurrently active tasks; oracle: the gauge never exceeds the configured parallelism, no task starts while an exclusive task is active and an exclusive task starts only when nothing else runs; non-trivial = more tasks than the parallelism or an exclusive program present; distinct by case hash")
 	docs, only := vt.Replays(c14Local)
 	for _, d := range docs {
 		var c c14LocalCase
@@ -886,6 +926,7 @@ func TestVerifC14LocalLimiter(t *testing.T) {
 	rapid.Check(t, func(rt *rapid.T) {
 		var c c14LocalCase
 		c.Parallelism = rapid.IntRange(1, 6).Draw(rt, "p")
+		c.FailFirst = rapid.IntRange(0, 3).Draw(rt, "failfirst") == 0
 		np := rapid.IntRange(1, 4).Draw(rt, "nprog")
 		tasks, excl := 0, false
 		for i := 0; i < np; i++ {
